@@ -127,6 +127,9 @@ def run(tier, seed):
         res.add_violation({"suite": "context-threads", "what": "trace rejected by Trace_C18", "first_unmatched_event": info["next"],
                            "matched": info["matched"], "total": info["total"], "trace_prefix_tail": prefix[-30:],
                            "signature": "trace|" + json.dumps(info["next"], sort_keys=True)})
+    # ---- the repository's own test suite, run with the hooks on: its cache events are a behaviour of the same cache
+    import rtlib
+    rtlib.check_repo_cache(res)
     # the binding binds: a corrupted trace must be rejected
     if not corrupted_is_rejected(tr):
         raise vlib.ToolError("trace validation is vacuous: a corrupted trace was accepted")
